@@ -6,7 +6,7 @@ code : real xknx.telegram.apci:
        C04 - every APDU of length 0..2, a stride of length 3, and for every ten-bit code APDUs of every length 2..48, 64, 254, 255 (thorough: every length up to 255)
              with all-zero / all-one / alternating / random content; 1 s watchdog.
        C05 - every APDU of that plan that decodes: to_knx(), calculated_length(), decode again, bitwise comparison.
-       C06 - every service class built with boundary values for each constructor argument (0, 1, 2^k - 1, 2^k, -1, 2^32; byte strings of
+       C06 - every service class built with boundary values for each constructor argument (0, 1, 2^k - 1, 2^k, -1, 2^32 - thorough: every value -2..4099 and around every power of two; byte strings of
              every length 0..20 and around 250; addresses; group values), encoded and decoded again.
 """
 from __future__ import annotations
@@ -192,7 +192,7 @@ def run06(ck):
         if "ReturnCode" in a:
             from xknx.telegram.apci import ReturnCode  # noqa: PLC0415
             return list(ReturnCode)
-        return INTS + ([None] if "None" in a else [])
+        return (INTS if ck.tier == "quick" else sorted(set(INTS) | set(range(-2, 4100)) | {2**k + d for k in range(12, 33) for d in (-1, 0, 1)})) + ([None] if "None" in a else [])
 
     for cls in classes:
         sig = inspect.signature(cls.__init__)
